@@ -112,12 +112,28 @@ static void matrix_case(Tape& t, Ctx& c)
   bool ser = t.flag(1, 3);
   switch(kind)
   {
-  case 0: { typedef SparseMatrixBCSR<D, I, 2, 3> M; static const FileMode modes[] = {FileMode::fm_bcsr, FileMode::fm_binary}; FileMode m = modes[t.range(0, 1)];
+  case 0: { typedef SparseMatrixBCSR<D, I, 2, 3> M; static const FileMode modes[] = {FileMode::fm_bcsr, FileMode::fm_binary, FileMode::fm_mtx}; FileMode m = modes[t.range(0, 2)];
     Pat p = gen_pattern(t, 9, vcls); c.desc.set("kind", "bcsr<2,3>"); c.desc.set("A", p.json()); c.desc.set("mode", ser ? "serialize" : mode_name(m));
     c.op = std::string(ser ? "serialize" : mode_name(m)) + "@bcsr"; c.label("kind:bcsr"); c.label(std::string("mode:") + (ser ? "serialize" : mode_name(m))); if(p.nnz() == 0) c.label("edge:entry-free"); else if(p.has_empty_row()) c.label("edge:empty-row");
     c.nontrivial = true; c.announce(); M A = make_bcsr<D, I, 2, 3>(p);
     auto fl = [](const M& a, std::vector<long double>& v, std::string& l) { flat_container(a, v, l); };
-    if(ser) roundtrip_serialize<M, float, std::uint32_t>(A, fl, "float,u32"); else roundtrip(c, A, m, fl, 0); break; }
+    if(ser) roundtrip_serialize<M, float, std::uint32_t>(A, fl, "float,u32");
+    else if(m == FileMode::fm_mtx)
+    {
+      // BCSR writes MatrixMarket but has no reader for it (exchange format): the scalar CSR reader reads the file back; the
+      // result must be the scalar matrix the blocked one represents - same pod dimensions, same stored positions, values to
+      // the printed precision
+      std::stringstream s1(std::ios::in | std::ios::out | std::ios::binary); A.write_out(m, s1); std::string w1 = s1.str();
+      std::stringstream rd(w1, std::ios::in | std::ios::binary); SparseMatrixCSR<D, I> B(FileMode::fm_mtx, rd);
+      Dense da = dense_of(A), db = dense_of(B);
+      VF_CHECK(da.r == db.r && da.c == db.c, "mtx written by bcsr<2,3> read back as csr has dimensions " << db.r << "x" << db.c << ", the blocked matrix " << da.r << "x" << da.c);
+      for(long i = 0; i < da.r; ++i) for(long j = 0; j < da.c; ++j)
+      {
+        VF_CHECK((bool)da.st(i, j) == (bool)db.st(i, j), "mtx written by bcsr<2,3>: scalar position (" << i << "," << j << ") is " << (da.st(i, j) ? "stored in the blocked matrix but missing in the file" : "in the file but not stored in the blocked matrix"));
+        VF_CHECK(fabsl(da(i, j) - db(i, j)) <= 6e-7L * fabsl(da(i, j)), "mtx written by bcsr<2,3>: entry (" << i << "," << j << ") reads " << (double)db(i, j) << " wrote " << (double)da(i, j));
+      }
+    }
+    else roundtrip(c, A, m, fl, 0); break; }
   case 1: { typedef SparseMatrixCSCR<D, I> M; static const FileMode modes[] = {FileMode::fm_cscr, FileMode::fm_binary}; FileMode m = modes[t.range(0, 1)];
     Pat p = gen_pattern(t, 12, vcls); c.desc.set("kind", "cscr"); c.desc.set("A", p.json()); c.desc.set("mode", ser ? "serialize" : mode_name(m));
     c.op = std::string(ser ? "serialize" : mode_name(m)) + "@cscr"; c.label("kind:cscr"); c.label(std::string("mode:") + (ser ? "serialize" : mode_name(m))); if(p.nnz() == 0) c.label("edge:entry-free"); else if(p.has_empty_row()) c.label("edge:empty-row");
